@@ -30,8 +30,8 @@ theorem onceSend_some {c : Cfg} {s toAfter t : State} (h : onceSend c s toAfter 
     · injection h with h; subst h; simp_all
     · cases h
 
-theorem outPut_some {s toAfter t : State} (h : outPut s toAfter = some t) :
-    s.outq.length < cap ∧ t = { toAfter with outq := s.outq ++ [.data] } := by
+theorem outPut_some {s toAfter t : State} {p : OPkt} (h : outPut s toAfter p = some t) :
+    s.outq.length < cap ∧ t = { toAfter with outq := s.outq ++ [p] } := by
   unfold outPut at h
   split at h
   · injection h with h; subst h; simp_all
@@ -399,6 +399,20 @@ theorem inv_wDrain (c : Cfg) (s t : State) (hi : Inv s) (h : step c s (.wDrain) 
   all_goals inv_fin
 
 theorem inv_wFlush (c : Cfg) (s t : State) (hi : Inv s) (h : step c s (.wFlush) = some t) : Inv t := by
+  obtain ⟨h1,h2,h3,h4,h5,h6,h7,h8,h9,h10,h11,h12,h13,h14,h15,h16,h17,h18,h19,h20,h21,h22,h23,h24,h25,h26,h27,h28,h29⟩ := hi
+  simp only [step] at h
+  (repeat' (split at h))
+  all_goals (first | (cases h; done) | skip)
+  all_goals (try (injection h with h; subst h))
+  all_goals first
+    | (have h' := onceBegin_some h; clear h; rcases h' with ⟨_, _, _, _, rfl⟩ | ⟨_, _, rfl⟩ | ⟨_, rfl⟩)
+    | (have h' := onceSend_some h; clear h; rcases h' with ⟨_, rfl⟩ | ⟨_, _, rfl⟩)
+    | (have h' := outPut_some h; clear h; obtain ⟨_, rfl⟩ := h')
+    | (have h' := outSkip_some h; clear h; obtain ⟨_, rfl⟩ := h')
+    | skip
+  all_goals inv_fin
+
+theorem inv_wFlushConnack (c : Cfg) (s t : State) (hi : Inv s) (h : step c s (.wFlushConnack) = some t) : Inv t := by
   obtain ⟨h1,h2,h3,h4,h5,h6,h7,h8,h9,h10,h11,h12,h13,h14,h15,h16,h17,h18,h19,h20,h21,h22,h23,h24,h25,h26,h27,h28,h29⟩ := hi
   simp only [step] at h
   (repeat' (split at h))
@@ -982,6 +996,7 @@ theorem inv_step (c : Cfg) (s t : State) (a : Act) (hi : Inv s) (h : step c s a 
   | wWriteFail => exact inv_wWriteFail c s t hi h
   | wDrain => exact inv_wDrain c s t hi h
   | wFlush => exact inv_wFlush c s t hi h
+  | wFlushConnack => exact inv_wFlushConnack c s t hi h
   | wErr => exact inv_wErr c s t hi h
   | wCloseSock => exact inv_wCloseSock c s t hi h
   | cRecv => exact inv_cRecv c s t hi h
